@@ -55,6 +55,10 @@ use rs_matter::dm::clusters::basic_info::BasicInfoSettings;
 use rs_matter::dm::clusters::binding::{self, BindingHandler, Bindings};
 use rs_matter::dm::clusters::desc::{self, ClusterHandler as _};
 use rs_matter::dm::clusters::net_comm::{NetworkType, Networks, NetworksAccess, WirelessCreds};
+use rs_matter::dm::clusters::icd_mgmt::{self, ClusterHandler as _};
+use rs_matter::dm::clusters::ota_req::{self, ClusterHandler as _};
+use rs_matter::dm::clusters::scenes::{self, ClusterAsyncHandler as _};
+use rs_matter::dm::clusters::time_sync::{self, ClusterHandler as _, TimeZones as _};
 use rs_matter::dm::clusters::user_label::{self, UserLabelHandler, UserLabels};
 use rs_matter::dm::devices::DEV_TYPE_ON_OFF_LIGHT_SWITCH;
 use rs_matter::dm::endpoints;
@@ -62,8 +66,8 @@ use rs_matter::dm::networks::wireless::{NoopWirelessNetCtl, WifiNetworks};
 use rs_matter::dm::{Async, Dataver, Endpoint, EpClMatcher, Node, Privilege};
 use rs_matter::error::Error;
 use rs_matter::fabric::{Fabric, FabricPersist, Fabrics};
-use rs_matter::im::client::ImClient;
-use rs_matter::im::{CmdResp, IMStatusCode, InteractionModel, InteractionModelState};
+use rs_matter::im::client::{ImClient, SubscribeOutcome, TxOutcome};
+use rs_matter::im::{AttrPath, CmdResp, GenericPath, IMStatusCode, InteractionModel, InteractionModelState};
 use rs_matter::onboard::cac::RcacGenerator;
 use rs_matter::onboard::noc::NocGenerator;
 use rs_matter::persist::{
@@ -95,6 +99,8 @@ const APP_EP: u16 = 1;
 const MAX_BINDINGS: usize = 8;
 const LABEL_EPS: usize = 2;
 const LABELS_PER_EP: usize = 4;
+const MAX_SCENES: usize = 16;
+const ICD_CLIENT: u64 = 500;
 
 const CL_GENCOMM: u32 = 0x30;
 const CL_NETCOMM: u32 = 0x31;
@@ -104,6 +110,10 @@ const CL_GKM: u32 = 0x3F;
 const CL_BASIC: u32 = 0x28;
 const CL_BINDING: u32 = 0x1E;
 const CL_ULABEL: u32 = 0x41;
+const CL_TIMESYNC: u32 = 0x38;
+const CL_ICD: u32 = 0x46;
+const CL_OTA: u32 = 0x2A;
+const CL_SCENES: u32 = 0x62;
 
 type Nets = WifiNetworks<MAX_NETS>;
 type DevState = InteractionModelState<Nets>;
@@ -264,6 +274,12 @@ enum Op {
     Location(Sess, u64),
     Reg(Sess, u64),
     Remove(Sess, u8),
+    Tz(Sess, u64),
+    Tts(Sess, u64),
+    Icd(Sess, u64),
+    Ota(Sess, u64),
+    Scene(Sess, u64),
+    Subscribe(Sess, u64),
     Resume(u8, u64),
     Flush,
     Reset,
@@ -311,7 +327,45 @@ fn parse_op(t: &str) -> Op {
         'O' => Op::Location(s, n(0)),
         'Y' => Op::Reg(s, n(0)),
         'X' => Op::Remove(s, n(0) as u8),
+        'T' => Op::Tz(s, n(0)),
+        't' => Op::Tts(s, n(0)),
+        'I' => Op::Icd(s, n(0)),
+        'o' => Op::Ota(s, n(0)),
+        's' => Op::Scene(s, n(0)),
+        'D' => Op::Subscribe(s, n(0)),
         _ => panic!("bad op {}", t),
+    }
+}
+
+fn op_kind(op: &Op) -> char {
+    match op {
+        Op::Arm(..) => 'A',
+        Op::Expire => 'E',
+        Op::AddNoc(..) => 'K',
+        Op::UpdNoc(..) => 'u',
+        Op::NetAdd(..) => 'W',
+        Op::Complete(..) => 'Z',
+        Op::Acl(..) => 'L',
+        Op::Gkm(..) => 'G',
+        Op::Label(..) => 'F',
+        Op::Vid(..) => 'V',
+        Op::Bind(..) => 'B',
+        Op::ULabel(..) => 'U',
+        Op::NodeLabel(..) => 'N',
+        Op::Location(..) => 'O',
+        Op::Reg(..) => 'Y',
+        Op::Remove(..) => 'X',
+        Op::Tz(..) => 'T',
+        Op::Tts(..) => 't',
+        Op::Icd(..) => 'I',
+        Op::Ota(..) => 'o',
+        Op::Scene(..) => 's',
+        Op::Subscribe(..) => 'D',
+        Op::Resume(..) => 'H',
+        Op::Flush => 'J',
+        Op::Reset => '!',
+        Op::NewPase => 'P',
+        Op::Crash => 'Q',
     }
 }
 
@@ -331,7 +385,13 @@ fn op_sess(op: &Op) -> Option<Sess> {
         | Op::NodeLabel(s, ..)
         | Op::Location(s, ..)
         | Op::Reg(s, ..)
-        | Op::Remove(s, ..) => Some(*s),
+        | Op::Remove(s, ..)
+        | Op::Tz(s, ..)
+        | Op::Tts(s, ..)
+        | Op::Icd(s, ..)
+        | Op::Ota(s, ..)
+        | Op::Scene(s, ..)
+        | Op::Subscribe(s, ..) => Some(*s),
         _ => None,
     }
 }
@@ -452,7 +512,12 @@ fn nets_cell(st: &DevState) -> String {
     format!("W={}", nets.unwrap_or_else(|_| "err".into()))
 }
 
-fn cells(dev: &Matter<'_>, st: &DevState, labels: &Labels, binds: &Binds) -> String {
+fn subs_cell(subs: &[(u32, u8, u64, u16)]) -> String {
+    let v: Vec<String> = subs.iter().map(|(_, fab, peer, tag)| format!("{}.{}{}", fab, tag, if *peer == ADMIN { "" } else { "?" })).collect();
+    format!("S={}", if v.is_empty() { "-".to_string() } else { v.join("+") })
+}
+
+fn cells(dev: &Matter<'_>, st: &DevState, app: &App, subs: &[(u32, u8, u64, u16)]) -> String {
     let mut v: Vec<String> = Vec::new();
     dev.with_state(|state| {
         v.extend(fabrics_cells(&state.fabrics));
@@ -460,8 +525,19 @@ fn cells(dev: &Matter<'_>, st: &DevState, labels: &Labels, binds: &Binds) -> Str
         v.push(resumption_cell(&state.resumption));
     });
     v.push(nets_cell(st));
-    v.push(labels_cell(labels));
-    v.push(bindings_cell(binds));
+    v.push(labels_cell(&app.labels));
+    v.push(bindings_cell(&app.binds));
+    v.push(format!("Z={}", tz_token(&app.tz)));
+    v.push(format!(
+        "T={}",
+        dev.with_rtc(|rtc| rtc.trusted_time_source())
+            .map(|t| format!("{}.{}{}", t.fab_idx.get(), t.node_id, if t.endpoint == 1 { "" } else { "?" }))
+            .unwrap_or_else(|| "-".into())
+    ));
+    v.push(format!("C={}", icd_tokens(&app.icd)));
+    v.push(format!("P={}", ota_tokens(&app.providers)));
+    v.push(format!("E={}", scenes_tokens(&app.scenes)));
+    v.push(subs_cell(subs));
     v.join(" ")
 }
 
@@ -534,7 +610,7 @@ async fn invoke(ctl: &Matter<'_>, sid: u32, endpoint: u16, cluster: u32, cmd: u3
                         let o = OctetStr::from_tlv(&s.ctx(0)?)?;
                         return Ok(Reply::Data(0, Some(o.0.to_vec())));
                     }
-                    let v = s.ctx(0)?.u64()?;
+                    let v = s.ctx(0).and_then(|e| e.u64()).unwrap_or(u64::MAX);
                     return Ok(Reply::Data(v, None));
                 }
                 CmdResp::Status(st) => return Ok(Reply::Status(st.status.status)),
@@ -551,6 +627,48 @@ fn data_class(r: Reply) -> String {
     match r {
         Reply::Data(0, _) => "ok".into(),
         Reply::Data(n, _) => format!("st{}", n),
+        Reply::Status(IMStatusCode::Success) => "ok".into(),
+        Reply::Status(s) => format!("im{}", s as u16),
+        Reply::Err(e) => format!("err:{}", e),
+    }
+}
+
+/// A subscription to one attribute of the root endpoint, replacing the earlier ones of this peer on
+/// this fabric (KeepSubscriptions = false); `tag` travels as the minimum interval (as in c07.rs).
+async fn subscribe(ctl: &Matter<'_>, sid: u32, tag: u16) -> Result<(), Error> {
+    let crypto = test_only_crypto();
+    let exchange = Exchange::initiate_for_session(ctl, &crypto, sid)?;
+    let path = AttrPath::from_gp(&GenericPath::new(Some(0), Some(CL_BASIC), Some(1)));
+    let paths = [path];
+    let mut sender = exchange.subscribe_sender().await?;
+    let mut chunk = loop {
+        match sender.tx().await? {
+            TxOutcome::BuildRequest(builder) => {
+                sender = builder
+                    .keep_subs(false)?
+                    .min_int_floor(tag)?
+                    .max_int_ceil(3600)?
+                    .attr_requests_from(&paths)?
+                    .fabric_filtered(false)?
+                    .end()?;
+            }
+            TxOutcome::GotResponse(c) => break c,
+        }
+    };
+    loop {
+        let _ = chunk.response()?;
+        match chunk.complete().await? {
+            SubscribeOutcome::NextChunk(next) => chunk = next,
+            SubscribeOutcome::Established(_) => break,
+        }
+    }
+    Ok(())
+}
+
+/// a reply that carries response data (whatever its first field is) or a success status
+fn any_data(r: Reply) -> String {
+    match r {
+        Reply::Data(..) => "ok".into(),
         Reply::Status(IMStatusCode::Success) => "ok".into(),
         Reply::Status(s) => format!("im{}", s as u16),
         Reply::Err(e) => format!("err:{}", e),
@@ -664,14 +782,105 @@ fn str_value(s: &str) -> Vec<u8> {
 
 const NODE: Node<'static> = Node {
     endpoints: &[
-        root_endpoint!(wifi),
+        root_endpoint!(wifi, time_sync(time_zone, time_sync_client)),
         Endpoint::new(
             APP_EP,
             devices!(DEV_TYPE_ON_OFF_LIGHT_SWITCH),
-            clusters!(desc::DescHandler::CLUSTER, binding::CLUSTER, user_label::CLUSTER),
+            clusters!(
+                desc::DescHandler::CLUSTER,
+                binding::CLUSTER,
+                user_label::CLUSTER,
+                icd_mgmt::IcdMgmtHandler::CLUSTER,
+                ota_req::OtaRequestorHandler::CLUSTER,
+                scenes::ScenesHandler::<'static, MAX_SCENES>::CLUSTER
+            ),
         ),
     ],
 };
+
+/// What the application owns: the registries the cluster handlers borrow.
+struct App {
+    labels: Labels,
+    binds: Binds,
+    icd: icd_mgmt::Icd,
+    tz: time_sync::TimeZoneStore,
+    providers: ota_req::Providers,
+    ota: ota_req::OtaState,
+    scenes: scenes::ScenesState<MAX_SCENES>,
+}
+
+impl App {
+    fn new() -> Self {
+        App {
+            labels: Labels::new(),
+            binds: Binds::new(),
+            icd: icd_mgmt::Icd::new(
+                rs_matter::sc::checkin::CheckInCounter::new(0, 10),
+                icd_mgmt::IcdModeConfig {
+                    idle_mode_duration_s: 60,
+                    active_mode_duration_ms: 300,
+                    active_mode_threshold_ms: 500,
+                    user_active_mode_trigger_hint: 0,
+                    user_active_mode_trigger_instruction: "",
+                },
+            ),
+            tz: time_sync::TimeZoneStore::new(),
+            providers: ota_req::Providers::new(),
+            ota: ota_req::OtaState::new(APP_EP),
+            scenes: scenes::ScenesState::new(),
+        }
+    }
+
+    /// what the application does right after `InteractionModel::startup`, as the docs of the two
+    /// stores prescribe (their handlers do not load them)
+    fn load(&self, access: &impl KvBlobStoreAccess) -> Result<(), Error> {
+        access.access(|store, buf| self.tz.load_persist(store, buf))?;
+        access.access(|store, buf| self.icd.load_registrations(store, buf))
+    }
+}
+
+/// The data model of the device: the Wi-Fi root endpoint handlers, a time synchronization handler
+/// with a time zone store in front of the built-in one, and the application endpoint.
+/// The LAST handler chained is asked first (and is the first to get a lifecycle operation).
+macro_rules! data_model {
+    ($app:expr, $crypto:expr) => {{
+        let net_ctl = NoopWirelessNetCtl::new(NetworkType::Wifi);
+        let mut rand = $crypto.rand().unwrap();
+        (
+            NODE,
+            endpoints::WifiSysHandlerBuilder::new(net_ctl, &())
+                .build($crypto.rand().unwrap())
+                .chain(
+                    EpClMatcher::new(Some(0), Some(time_sync::TimeSyncHandler::CLUSTER.id)),
+                    Async(time_sync::TimeSyncHandler::new_with_time_zone(Dataver::new_rand(&mut rand), &$app.tz).adapt()),
+                )
+                .chain(
+                    EpClMatcher::new(Some(APP_EP), Some(desc::DescHandler::CLUSTER.id)),
+                    Async(desc::DescHandler::new(Dataver::new_rand(&mut rand)).adapt()),
+                )
+                .chain(
+                    EpClMatcher::new(Some(APP_EP), Some(binding::CLUSTER.id)),
+                    Async(BindingHandler::new(Dataver::new_rand(&mut rand), APP_EP, &$app.binds).adapt()),
+                )
+                .chain(
+                    EpClMatcher::new(Some(APP_EP), Some(user_label::CLUSTER.id)),
+                    Async(UserLabelHandler::new(Dataver::new_rand(&mut rand), APP_EP, &$app.labels).adapt()),
+                )
+                .chain(
+                    EpClMatcher::new(Some(APP_EP), Some(icd_mgmt::IcdMgmtHandler::CLUSTER.id)),
+                    Async(icd_mgmt::IcdMgmtHandler::new(Dataver::new_rand(&mut rand), &$app.icd).adapt()),
+                )
+                .chain(
+                    EpClMatcher::new(Some(APP_EP), Some(ota_req::OtaRequestorHandler::CLUSTER.id)),
+                    Async(ota_req::OtaRequestorHandler::new(Dataver::new_rand(&mut rand), &$app.providers, &$app.ota).adapt()),
+                )
+                .chain(
+                    EpClMatcher::new(Some(APP_EP), Some(scenes::ScenesHandler::<'static, MAX_SCENES>::CLUSTER.id)),
+                    scenes::ScenesHandler::<MAX_SCENES>::new(Dataver::new_rand(&mut rand), &$app.scenes, ()).adapt(),
+                ),
+        )
+    }};
+}
 
 /// controller-side memory across restarts of the device
 struct Ctl {
@@ -682,6 +891,7 @@ struct Ctl {
 }
 
 struct OpRec {
+    kind: char,
     status: String,
     kv: String,
     ack: String,
@@ -725,8 +935,7 @@ fn boot_and_snapshot(kv: &MemKv) -> (String, String) {
     let dev = e2e::new_matter(det, false);
     let buffers: MatterBuffers = MatterBuffers::new();
     let st = DevState::new(Nets::new());
-    let labels = Labels::new();
-    let binds = Binds::new();
+    let app = App::new();
     let crypto = test_only_crypto();
     let access = dev.kv(kv.clone());
     let r1 = rsm_harness::catch(std::panic::AssertUnwindSafe(|| dev.startup(&access)));
@@ -735,35 +944,17 @@ fn boot_and_snapshot(kv: &MemKv) -> (String, String) {
         Ok(Err(e)) => format!("err:{:?}", e.code()),
         Err(_) => "panic".to_string(),
     };
-    let net_ctl = NoopWirelessNetCtl::new(NetworkType::Wifi);
-    let mut rand = crypto.rand().unwrap();
-    let handler = (
-        NODE,
-        endpoints::WifiSysHandlerBuilder::new(net_ctl, &())
-            .build(crypto.rand().unwrap())
-            .chain(
-                EpClMatcher::new(Some(APP_EP), Some(desc::DescHandler::CLUSTER.id)),
-                Async(desc::DescHandler::new(Dataver::new_rand(&mut rand)).adapt()),
-            )
-            .chain(
-                EpClMatcher::new(Some(APP_EP), Some(binding::CLUSTER.id)),
-                Async(BindingHandler::new(Dataver::new_rand(&mut rand), APP_EP, &binds).adapt()),
-            )
-            .chain(
-                EpClMatcher::new(Some(APP_EP), Some(user_label::CLUSTER.id)),
-                Async(UserLabelHandler::new(Dataver::new_rand(&mut rand), APP_EP, &labels).adapt()),
-            ),
-    );
+    let handler = data_model!(app, crypto);
     let dm = InteractionModel::new(&dev, &crypto, &buffers, handler, &access, &st);
     st.suppress_start_up_event();
-    let r2 = rsm_harness::catch(std::panic::AssertUnwindSafe(|| e2e::block_on(dm.startup())));
+    let r2 = rsm_harness::catch(std::panic::AssertUnwindSafe(|| e2e::block_on(dm.startup()).and_then(|_| app.load(&access))));
     let boot2 = match r2 {
         Ok(Ok(())) => "ok".to_string(),
         Ok(Err(e)) => format!("err:{:?}", e.code()),
         Err(_) => "panic".to_string(),
     };
     let boot = if boot1 == "ok" && boot2 == "ok" { "ok".to_string() } else { format!("{}/{}", boot1, boot2) };
-    (boot, cells(&dev, &st, &labels, &binds))
+    (boot, cells(&dev, &st, &app, &dm.verif_subscriptions()))
 }
 
 /// Run ops[start..] on one device incarnation over `kv` (which keeps its log across incarnations).
@@ -774,8 +965,7 @@ fn run_incarnation(base: &Base, cm: &mut Ctl, kv: &MemKv, ops: &[Op], start: usi
     let ctl = e2e::new_matter(det, false);
     let buffers: MatterBuffers = MatterBuffers::new();
     let st = DevState::new(Nets::new());
-    let labels = Labels::new();
-    let binds = Binds::new();
+    let app = App::new();
     use rand::SeedableRng;
     let crypto = rs_matter::crypto::default_crypto(
         rand::rngs::StdRng::seed_from_u64(0xC11_0000 + boot_no),
@@ -783,28 +973,11 @@ fn run_incarnation(base: &Base, cm: &mut Ctl, kv: &MemKv, ops: &[Op], start: usi
     );
     let access = dev.kv(kv.clone());
     dev.startup(&access).unwrap();
-    let net_ctl = NoopWirelessNetCtl::new(NetworkType::Wifi);
-    let mut rand = crypto.rand().unwrap();
-    let handler = (
-        NODE,
-        endpoints::WifiSysHandlerBuilder::new(net_ctl, &())
-            .build(crypto.rand().unwrap())
-            .chain(
-                EpClMatcher::new(Some(APP_EP), Some(desc::DescHandler::CLUSTER.id)),
-                Async(desc::DescHandler::new(Dataver::new_rand(&mut rand)).adapt()),
-            )
-            .chain(
-                EpClMatcher::new(Some(APP_EP), Some(binding::CLUSTER.id)),
-                Async(BindingHandler::new(Dataver::new_rand(&mut rand), APP_EP, &binds).adapt()),
-            )
-            .chain(
-                EpClMatcher::new(Some(APP_EP), Some(user_label::CLUSTER.id)),
-                Async(UserLabelHandler::new(Dataver::new_rand(&mut rand), APP_EP, &labels).adapt()),
-            ),
-    );
+    let handler = data_model!(app, crypto);
     let dm = InteractionModel::new(&dev, &crypto, &buffers, handler, &access, &st);
     st.suppress_start_up_event();
     e2e::block_on(dm.startup()).unwrap();
+    app.load(&access).unwrap();
     if pase_at_boot {
         install(&dev, &ctl, Sess::P, cm.pase_gen);
     }
@@ -823,11 +996,12 @@ fn run_incarnation(base: &Base, cm: &mut Ctl, kv: &MemKv, ops: &[Op], start: usi
         let end = scoped_len(&full);
         cm.scoped_total = end;
         recs.push(OpRec {
+            kind: 'Q',
             status: "ok".into(),
             kv: if v.is_empty() { "-".to_string() } else { v.join(",") },
             ack: "-".into(),
             fs: fs_str(&dev),
-            cells: cells(&dev, &st, &labels, &binds),
+            cells: cells(&dev, &st, &app, &dm.verif_subscriptions()),
             end,
         });
     }
@@ -1004,6 +1178,94 @@ fn run_incarnation(base: &Base, cm: &mut Ctl, kv: &MemKv, ops: &[Op], start: usi
                             let f = *f;
                             data_class(invoke(&ctl, sid, 0, CL_NOC, 10, &tlv(|w| w.u8(&TLVTag::Context(0), f)), false).await)
                         }
+                        Op::Tz(_, k) => {
+                            let zones = tz_spec(*k);
+                            any_data(
+                                invoke(&ctl, sid, 0, CL_TIMESYNC, 2, &tlv(|w| {
+                                    w.start_array(&TLVTag::Context(0))?;
+                                    for (offset, valid_at, name) in &zones {
+                                        w.start_struct(&TLVTag::Anonymous)?;
+                                        w.i32(&TLVTag::Context(0), *offset)?;
+                                        w.u64(&TLVTag::Context(1), *valid_at)?;
+                                        w.utf8(&TLVTag::Context(2), name)?;
+                                        w.end_container()?;
+                                    }
+                                    w.end_container()
+                                }), false)
+                                .await,
+                            )
+                        }
+                        Op::Tts(_, k) => {
+                            let k = *k;
+                            data_class(
+                                invoke(&ctl, sid, 0, CL_TIMESYNC, 1, &tlv(|w| {
+                                    if k == 0 {
+                                        w.null(&TLVTag::Context(0))
+                                    } else {
+                                        w.start_struct(&TLVTag::Context(0))?;
+                                        w.u64(&TLVTag::Context(0), k)?;
+                                        w.u16(&TLVTag::Context(1), 1)?;
+                                        w.end_container()
+                                    }
+                                }), false)
+                                .await,
+                            )
+                        }
+                        Op::Icd(_, k) => {
+                            let k = *k;
+                            if k == 0 {
+                                data_class(invoke(&ctl, sid, APP_EP, CL_ICD, 2, &tlv(|w| w.u64(&TLVTag::Context(0), ICD_CLIENT)), false).await)
+                            } else {
+                                any_data(
+                                    invoke(&ctl, sid, APP_EP, CL_ICD, 0, &tlv(|w| {
+                                        w.u64(&TLVTag::Context(0), ICD_CLIENT)?;
+                                        w.u64(&TLVTag::Context(1), k)?;
+                                        w.str(&TLVTag::Context(2), &icd_key(k))?;
+                                        w.u8(&TLVTag::Context(4), (k % 2) as u8)
+                                    }), false)
+                                    .await,
+                                )
+                            }
+                        }
+                        Op::Subscribe(_, k) => match subscribe(&ctl, sid, *k as u16).await {
+                            Ok(()) => {
+                                // the device commits and persists the subscription AFTER the SubscribeResponse
+                                // has left: let its task finish before the next operation is recorded
+                                for _ in 0..200 {
+                                    if kv.log().len() > log_before && dm.verif_subscriptions().iter().any(|x| x.3 == *k as u16) {
+                                        break;
+                                    }
+                                    embassy_time::Timer::after(embassy_time::Duration::from_millis(1)).await;
+                                }
+                                "ok".to_string()
+                            }
+                            Err(e) => format!("err:{:?}", e.code()),
+                        },
+                        Op::Ota(_, k) => write_attr(&ctl, sid, APP_EP, CL_OTA, 0, no_data, &ota_value(*k)).await,
+                        Op::Scene(_, k) => {
+                            let k = *k;
+                            if k == 0 {
+                                data_class(
+                                    invoke(&ctl, sid, APP_EP, CL_SCENES, 2, &tlv(|w| {
+                                        w.u16(&TLVTag::Context(0), 0)?;
+                                        w.u8(&TLVTag::Context(1), 1)
+                                    }), false)
+                                    .await,
+                                )
+                            } else {
+                                data_class(
+                                    invoke(&ctl, sid, APP_EP, CL_SCENES, 0, &tlv(|w| {
+                                        w.u16(&TLVTag::Context(0), 0)?;
+                                        w.u8(&TLVTag::Context(1), 1)?;
+                                        w.u32(&TLVTag::Context(2), k as u32)?;
+                                        w.utf8(&TLVTag::Context(3), "")?;
+                                        w.start_array(&TLVTag::Context(4))?;
+                                        w.end_container()
+                                    }), false)
+                                    .await,
+                                )
+                            }
+                        }
                         _ => {
                             answered = false;
                             String::new()
@@ -1092,7 +1354,7 @@ fn run_incarnation(base: &Base, cm: &mut Ctl, kv: &MemKv, ops: &[Op], start: usi
                     // recorded by the next incarnation, once it is up
                     return Next::Boot(i, full.len());
                 }
-                recs.borrow_mut().push(OpRec { status, kv: kvs, ack, fs: fs_str(&dev), cells: cells(&dev, &st, &labels, &binds), end });
+                recs.borrow_mut().push(OpRec { kind: op_kind(&op), status, kv: kvs, ack, fs: fs_str(&dev), cells: cells(&dev, &st, &app, &dm.verif_subscriptions()), end });
             }
             Next::Done
         };
@@ -1100,6 +1362,7 @@ fn run_incarnation(base: &Base, cm: &mut Ctl, kv: &MemKv, ops: &[Op], start: usi
         match select(core::pin::pin!(device), core::pin::pin!(e2e::with_timeout(30_000, flow))).await {
             Either::First(r) => {
                 recs.borrow_mut().push(OpRec {
+                    kind: '?',
                     status: format!("transport-exit:{:?}", r.map_err(|e| e.code())),
                     kv: "-".into(),
                     ack: "-".into(),
@@ -1111,7 +1374,7 @@ fn run_incarnation(base: &Base, cm: &mut Ctl, kv: &MemKv, ops: &[Op], start: usi
             }
             Either::Second(Some(n)) => n,
             Either::Second(None) => {
-                recs.borrow_mut().push(OpRec { status: "hang".into(), kv: "-".into(), ack: "-".into(), fs: "?".into(), cells: String::new(), end: 0 });
+                recs.borrow_mut().push(OpRec { kind: '?', status: "hang".into(), kv: "-".into(), ack: "-".into(), fs: "?".into(), cells: String::new(), end: 0 });
                 Next::Done
             }
         }
@@ -1157,7 +1420,7 @@ fn run_s(base: &Base, f: &[&str]) -> String {
         if i > 0 {
             out.push(';');
         }
-        write!(out, "{}|{}|{}|{}|{}|{}", r.status, r.kv, r.ack, r.fs, r.end, r.cells).unwrap();
+        write!(out, "{}|{}|{}|{}|{}|{}|{}", r.status, r.kv, r.ack, r.fs, r.end, r.cells, r.kind).unwrap();
     }
     out.push_str(" # ");
     // cuts: every prefix of the in-scope log, except inside a factory reset (only its end)
